@@ -76,6 +76,7 @@ def main():
   cfgs = configs.quick_configs() if args.tier == "quick" else configs.thorough_configs()
   states = trans = 0
   all_dumps = {}
+  by_cfg = {}
   per_cfg = {}
   for name, consts in cfgs.items():
     r, dumps = pipecheck.design_run("%s_%s" % (prop, name), consts, spec["inv"], timeout=7200)
@@ -92,11 +93,18 @@ def main():
       # decided on the implementation by the replay below (the failing scenario is among the dumped ones)
       chk.note("design-level: invariant %s violated in %s (see work/%s_%s/tlc.out)" % (",".join(r.violated), name, prop, name))
     for k, d in dumps.items():
-      all_dumps.setdefault(k, d)
+      if k not in all_dumps:
+        all_dumps[k] = d
+        by_cfg.setdefault(name, []).append(k)
   # ---- spec -> code
-  keys = sorted(all_dumps)
   nreplay = 2500 if args.tier == "quick" else 10**9
-  chosen = common.sample_keep(keys, nreplay, args.seed)
+  # water-filling over the configs (small configs are replayed completely, the rest share the remaining budget)
+  chosen, left, todo = [], nreplay, sorted(by_cfg, key=lambda n: len(by_cfg[n]))
+  while todo:
+    name = todo.pop(0)
+    take = common.sample_keep(sorted(by_cfg[name]), max(0, left // (len(todo) + 1)), args.seed)
+    chosen += take
+    left -= len(take)
   items = [dict(scn=all_dumps[k]["scn"], dump=all_dumps[k], seed=args.seed, interp=spec["interp"], tag="tlc") for k in chosen]
   # ---- random larger graphs (no prediction; judged by the predicates only)
   nrand = 150 if args.tier == "quick" else 6000
